@@ -54,5 +54,5 @@ if [ ! -s "$OUT/rnacos-lib.json" ] || [ ! -s "$OUT/rnacos-bin.json" ]; then
 fi
 touch "$OUT/.ok"
 # keep the cache small: drop all but the 6 most recent fact dirs
-ls -1dt "$CACHE"/facts/*/ 2>/dev/null | tail -n +$([ -n "$LANE" ] && echo 40 || echo 7) | xargs -r rm -rf
+ls -1dt "$CACHE"/facts/*/ 2>/dev/null | tail -n +$([ -n "$LANE" ] && echo 200 || echo 7) | xargs -r rm -rf
 echo "$OUT"
